@@ -3,6 +3,7 @@
 package bbolt
 
 import (
+	"fmt"
 	"unsafe"
 
 	"go.etcd.io/bbolt/internal/common"
@@ -216,3 +217,62 @@ func verifFLState(f fl.Interface) (free []uint64, pending [][3]uint64) {
 	}
 	return
 }
+
+// VerifShape serialises the bucket's current B+tree as the cursor sees it
+// (materialised nodes override pages), in prefix form:
+//   L <n> {<hexkey> <hexval> <flags>}*n   |   B <n> {<hexsep> <subtree>}*n
+// ("-" stands for an empty byte string).
+func (b *Bucket) VerifShape() string {
+	var sb []byte
+	hx := func(x []byte) string {
+		if len(x) == 0 {
+			return "-"
+		}
+		const digits = "0123456789abcdef"
+		out := make([]byte, 0, 2*len(x))
+		for _, c := range x {
+			out = append(out, digits[c>>4], digits[c&15])
+		}
+		return string(out)
+	}
+	var walk func(id common.Pgid)
+	walk = func(id common.Pgid) {
+		p, n := b.pageNode(id)
+		if n != nil {
+			if n.isLeaf {
+				sb = append(sb, fmt.Sprintf("L %d ", len(n.inodes))...)
+				for i := range n.inodes {
+					in := &n.inodes[i]
+					sb = append(sb, fmt.Sprintf("%s %s %d ", hx(in.Key()), hx(in.Value()), in.Flags())...)
+				}
+				return
+			}
+			sb = append(sb, fmt.Sprintf("B %d ", len(n.inodes))...)
+			for i := range n.inodes {
+				in := &n.inodes[i]
+				sb = append(sb, (hx(in.Key()) + " ")...)
+				walk(in.Pgid())
+			}
+			return
+		}
+		if p.IsLeafPage() {
+			sb = append(sb, fmt.Sprintf("L %d ", p.Count())...)
+			for i := 0; i < int(p.Count()); i++ {
+				e := p.LeafPageElement(uint16(i))
+				sb = append(sb, fmt.Sprintf("%s %s %d ", hx(e.Key()), hx(e.Value()), e.Flags())...)
+			}
+			return
+		}
+		sb = append(sb, fmt.Sprintf("B %d ", p.Count())...)
+		for i := 0; i < int(p.Count()); i++ {
+			e := p.BranchPageElement(uint16(i))
+			sb = append(sb, (hx(e.Key()) + " ")...)
+			walk(e.Pgid())
+		}
+	}
+	walk(b.RootPage())
+	return string(sb)
+}
+
+// VerifRootShape is VerifShape of the transaction's root bucket.
+func (tx *Tx) VerifRootShape() string { return tx.root.VerifShape() }
